@@ -351,6 +351,10 @@ def verified_source(ctx, flow, copyfns, reach):
                            for x in walk_terms(st)) and not isinstance(vals[0] if vals else None, ast.Name):
                         ctx.undecided("C14.3", caller, "the copy source %r comes from the search index, but not through a candidate loop or a selector function this rule can read (`%s`)" % (
                             s.id, norm(vals[0])[:60] if vals else "?"), call)
+                    elif s.id in caller.params:
+                        # the source (or the record that holds it) is handed in by the callers of this function: where it was
+                        # selected is not in this function
+                        ctx.undecided("C14.3", caller, "the copy source is (a field of) the parameter %r of %s; which candidate its callers hand in, and whether it was verified, was not followed" % (s.id, caller.qualname), call)
                     else:
                         ctx.violated("C14.3", caller, "the copy source %r is not drawn from the search index: no enclosing candidate loop binds it" % s.id, call)
                     continue
@@ -463,8 +467,18 @@ def judge_selection(ctx, flow, caller, node, cand, label):
         return None
     # when the sizes differ (every size comparison fails), the copy must be out of reach
     size_ok = blocked(lambda x: (not size_atom(x)) if size_atom(x) is not None else None)
-    ctx.decide("C14.3", caller, size_ok, "the copy requires the candidate's size to equal the recorded length",
-               "the copy is not conditional on the candidate's size equalling the length the metafile records", label + " :: size")
+    it_expr = loop.iter
+    if isinstance(it_expr, ast.Name):
+        bl_ = ctx.res.bindings(caller).get(it_expr.id, [])
+        if len(bl_) == 1 and bl_[0][0] == "value":
+            it_expr = bl_[0][1]          # candidates = sized(...); for c in candidates
+    via = [t for c_ in ast.walk(it_expr) if isinstance(c_, ast.Call) for t in C.targets_of(ctx, caller, c_)]
+    if not size_ok and via:
+        # the candidates are handed out by a package function (a generator that may already have compared the sizes)
+        ctx.undecided("C14.3", caller, "the candidates of this loop come from %s; whether only candidates of the recorded size are handed out is decided there and was not followed" % via[0].qualname, label + " :: size")
+    else:
+        ctx.decide("C14.3", caller, size_ok, "the copy requires the candidate's size to equal the recorded length",
+                   "the copy is not conditional on the candidate's size equalling the length the metafile records", label + " :: size")
     # ---- (b) hash check over the same candidate, or the recorded length being zero
     hash_ok = False
     why = "no controlling test compares a recorded hash with a hash computed over this candidate"
@@ -512,6 +526,10 @@ def judge_selection(ctx, flow, caller, node, cand, label):
                 if (blocked(lambda x, a=a: True if x is a else None) or blocked(lambda x, a=a: False if x is a else None)):
                     ctx.undecided("C14.3", caller, "the copy depends on `%s`, the result of a search that the origin terms do not reduce to a hash comparison: whether the candidate was verified is decided inside that call" % norm(a)[:60], label + " :: hash")
                     return
+    if not hash_ok and why.startswith("no controlling test") and any(t_.is_generator for t_ in via):
+        # the candidates are handed out by a package generator, which may hand out verified ones only
+        ctx.undecided("C14.3", caller, "the candidates of this loop come from the generator %s; whether it hands out verified candidates only is decided there and was not followed" % via[0].qualname, label + " :: hash")
+        return
     ctx.decide("C14.3", caller, hash_ok, "the copy is conditional on a recorded hash equalling the hash of bytes read from this very candidate (or the recorded length being zero)",
                "unverified copy: " + why, label + " :: hash")
 
